@@ -141,7 +141,7 @@ func (e *c17Env) gcTick() {
 
 func (e *c17Env) stop() error {
 	e.cancel()
-	tm := time.NewTimer(c17HangBound)
+	tm := time.NewTimer(c17Bound())
 	defer tm.Stop()
 	for _, ch := range []chan struct{}{e.mgr.headerSubDone, e.mgr.disconnectedPeersDone} {
 		select {
@@ -330,7 +330,13 @@ func (s *c17MgrSM) whyNot(h int, x peer.ID) string {
 	} else {
 		fmt.Fprintf(&b, "there is no pool for h%d; ", h)
 	}
-	fmt.Fprintf(&b, "in the general pool it is %s", s.gen.describe(x, now))
+	b.WriteString(s.whyNotGen(x))
+	return b.String()
+}
+
+func (s *c17MgrSM) whyNotGen(x peer.ID) string {
+	var b strings.Builder
+	fmt.Fprintf(&b, "in the general pool it is %s", s.gen.describe(x, s.clk.Now()))
 	if !s.gen.present(x) {
 		var unconf, conf []string
 		for i := range s.hashes {
@@ -575,7 +581,7 @@ func (s *c17MgrSM) await(rt *rapid.T, c *c17Call, why string) c17PeerRes {
 		return r
 	default:
 	}
-	tm := time.NewTimer(c17HangBound)
+	tm := time.NewTimer(c17Bound())
 	defer tm.Stop()
 	select {
 	case r := <-c.res:
@@ -583,7 +589,7 @@ func (s *c17MgrSM) await(rt *rapid.T, c *c17Call, why string) c17PeerRes {
 	case <-tm.C:
 		c17ShrinkBound()
 		rt.Fatalf("C17/request-returns: Peer(h%d) (request #%d) did not return within %s although %s\nhistory:\n%s",
-			c.h, c.n, c17HangBound, why, s.history())
+			c.h, c.n, c17Bound(), why, s.history())
 		panic("unreachable")
 	}
 }
@@ -826,8 +832,8 @@ func (s *c17MgrSM) check(rt *rapid.T) {
 					rule = "C17/unconfirmed-peer-promoted"
 				}
 			}
-			rt.Fatalf("%s: %s is in the general pool (%s) but by the model %s\nhistory:\n%s",
-				rule, string(x), c17StatusName(st, ok), s.whyNot(0, x), s.history())
+			rt.Fatalf("%s: the manager holds %s in the general pool (%s) but by the model %s\nhistory:\n%s",
+				rule, string(x), c17StatusName(st, ok), s.whyNotGen(x), s.history())
 		case !rPresent && s.gen.present(x):
 			rt.Fatalf("C17/peer-lost: %s is not in the general pool, by the model it is %s there\nhistory:\n%s",
 				string(x), s.gen.describe(x, now), s.history())
@@ -987,7 +993,7 @@ func TestVerifC17_ManagerModel(t *testing.T) {
 				if n := c17WaitNoGoroutine(fn); n > 0 && !rt.Failed() {
 					rt.Logf("leaked goroutines:\n%s", c17LastLeak)
 					rt.Fatalf("C17/cancellation-honoured: %d goroutine(s) in %s still alive %s after every request context was cancelled\nhistory:\n%s",
-						n, fn, c17HangBound, s.history())
+						n, fn, c17Bound(), s.history())
 				}
 			}
 		}()
